@@ -88,10 +88,10 @@ class _SecStream(Stream):
                 add(alg, m, "state-pair", p, dirty=False)
                 add(alg, m, "state-pair", p, dirty=True)
         # longer messages around block boundaries and random sizes
-        big = [131, 255, 256, 257, 511, 512, 1024] if quick else \
+        big = [131, 255, 256, 257, 512, 1024] if quick else \
               [131, 255, 256, 257, 511, 512, 513, 1023, 1024, 1025, 2047, 2048, 2049, 4093, 4094, 4095, 4096]
-        nrand = 4 if quick else 120
-        for n in big + [rng.range(132, 1500 if quick else 4096) for _ in range(nrand)]:
+        nrand = 3 if quick else 120
+        for n in big + [rng.range(132, 700 if quick else 4096) for _ in range(nrand)]:
             for alg in self.algs_main:
                 add(alg, draw_msg(rng, n), "long")
         if not quick:
@@ -176,14 +176,25 @@ class Raw(Stream):
 class Nea1Raw(Raw):
     name = "nea1raw"
     sub = "nea1raw"
+    requires = Raw.requires + ["Snow3gSpec"]
     model_check = "nea1raw_check"
+    model_out = "nea1raw_expected"
+    # the specification speaks when the bit length is the octet length of the message
+    spec_check = ("(fun c : raw_case => let '(dirty, key, (count, bearer, dir), msg, len, obs) := c in "
+                  "if (len =? 8 * N.of_nat (length msg)) && (bearer <? 32) && (dir <? 2) "
+                  "then sres_agree (SOk (eea1 key count bearer dir msg)) obs else true)")
 
 
 class Nia1Raw(Raw):
     name = "nia1raw"
     sub = "nia1raw"
     field = "mac"
+    requires = Raw.requires + ["Snow3gSpec"]
     model_check = "nia1raw_check"
+    model_out = "nia1raw_expected"
+    spec_check = ("(fun c : raw_case => let '(dirty, key, (count, bearer, dir), msg, len, obs) := c in "
+                  "match msg with [] => true | _ => if (len =? 8 * N.of_nat (length msg)) && (bearer <? 32) && (dir <? 2) "
+                  "then sres_agree (SOk (eia1 key count bearer dir msg)) obs else true end)")
 
 
 class C07(Check):
